@@ -170,7 +170,7 @@ func (con *Connection) Close() error {
 	log.Debug.Println("Close connection and remove session")
 
 	// Remove session from the context
-	con.context.DeleteSessionForConnection(con.connection)
+	con.context.DeleteSessionForConnection(con)
 
 	return con.connection.Close()
 }
